@@ -149,7 +149,9 @@ class _WriteRequest:
         self.addr = addr
         self._bytes_left = len(data)
         self._write_len = self._bytes_left
-        self._data = data
+        # Keep a copy, a request that is queued behind another write is
+        # started later and the caller may have reused its buffer by then
+        self._data = list(data)
         self.data = bytearray()
         self.cf = cf
         self._progress_cb = progress_cb
